@@ -287,29 +287,43 @@ thread_local! {
     static DIAGRAM_SEEN: RefCell<FxSet<Raw>> = RefCell::new(FxSet::default());
 }
 
-/// Reads a printed diagram with a fixed-column reader: line r+2 (after header and frame) is rank 8-r, cell k of the
-/// rank is the character at column 3 + 2k.  Returns (header line, 64 cell characters).
+/// Reads a printed diagram the way the documented grid is laid out, tolerating cosmetic differences (frame lines, trailing
+/// blanks): a rank line is a line that starts (after optional blanks) with its rank digit and '|'; between that bar and the
+/// next one, cell k of the rank is the character at odd position 1 + 2k (the positions `from_str` samples), the characters
+/// at the even positions in between must be blanks.  Every rank 8..1 must occur exactly once.
+/// Returns (header line, 64 cell characters, index 0 = a8).
 pub fn read_diagram(text: &str) -> Result<(String, Vec<char>), String> {
     let lines: Vec<&str> = text.split('\n').collect();
-    if lines.len() < 12 {
-        return Err(format!("diagram has {} lines", lines.len()));
-    }
-    let mut cells = Vec::with_capacity(64);
-    for r in 0..8 {
-        let l: Vec<char> = lines[2 + r].chars().collect();
-        let label = std::char::from_digit(8 - r as u32, 10).unwrap();
-        if l.len() != 20 || l[0] != label || l[1] != '|' || l[18] != ' ' || l[19] != '|' {
-            return Err(format!("rank line {} malformed: {:?}", 8 - r, lines[2 + r]));
+    let mut cells = vec!['?'; 64];
+    let mut seen = [false; 8];
+    for line in lines.iter() {
+        let t = line.trim_start();
+        let mut it = t.chars();
+        let (d, bar) = (it.next(), it.next());
+        let rank = match (d.and_then(|c| c.to_digit(10)), bar) {
+            (Some(r), Some('|')) if (1..=8).contains(&r) => r as usize,
+            _ => continue,
+        };
+        if seen[rank - 1] {
+            return Err(format!("rank {} is printed twice", rank));
+        }
+        seen[rank - 1] = true;
+        let inner: Vec<char> = t[2..].split('|').next().unwrap_or("").chars().collect();
+        if inner.len() < 16 {
+            return Err(format!("rank line {} too short: {:?}", rank, line));
         }
         for k in 0..8 {
-            if l[2 + 2 * k] != ' ' {
-                return Err(format!("rank line {} malformed: {:?}", 8 - r, lines[2 + r]));
+            if inner[2 * k] != ' ' {
+                return Err(format!("rank line {} malformed: {:?}", rank, line));
             }
-            cells.push(l[3 + 2 * k]);
+            cells[(8 - rank) * 8 + k] = inner[1 + 2 * k];
+        }
+        if inner[16..].iter().any(|&c| c != ' ') {
+            return Err(format!("rank line {} has a ninth cell: {:?}", rank, line));
         }
     }
-    if lines[1] != " +-----------------+" || lines[10] != " +-----------------+" || lines[11] != "   a b c d e f g h" {
-        return Err("frame malformed".to_string());
+    if seen.iter().any(|&b| !b) {
+        return Err(format!("not every rank 1..8 has a line: {:?}", seen));
     }
     Ok((lines[0].to_string(), cells))
 }
